@@ -20,8 +20,10 @@ PROPS = {
             r'c06_bin_contains_(set1|arr1)', r'c06_bin_prefix_arr1',
             r'c06_bin_(add|sub|mul|div)_int', r'c06_bin_(and|or)_bool', r'c06_bin_union_set0',
             r'c06_bin_bit(and|xor)_int', r'c06_bin_lazyor_bool', r'c06_bin_get_(arr1|map1)',
+            r'c06_un_(negate|length)', r'c06_mul_overflow_boundary', r'c06_div_value_64by8',
         ],
-        'thorough': [r'c06_bin_\w+'],
+        'thorough': [r'c06_bin_\w+', r'c06_un_\w+', r'c06_mul_value_32x8'],
+        'per_harness': {r'c06_un_typeof': {'unwindset': 'memcmp.0:20'}},
         'cap': {'quick': 300, 'thorough': 900},
         'functions': ['datalog::expression::Binary::evaluate', 'datalog::expression::Unary::evaluate',
                       'datalog::symbol::TemporarySymbolTable::{new,get_symbol,insert}', 'derived Clone/Drop/Ord/PartialEq of datalog::Term'],
